@@ -50,6 +50,15 @@ Parameter-coverage additions (audit of families x routines x flags):
   C11.als.flags                als with lamb=None, weights, allow_skip_cores with unsampled slices, update_sol, rank-adaptive
                                with lamb=None / weights / r_add = 1 / allow_swap, on zero / constant / one-hot / zero-slice data
   C11.anova.class_flags        ANOVA.cores(rel_noise) twice on one object, r above the mode sizes, constant and zero data
+  C11.forms.tt_input / C11.forms.cross / C11.forms.als   (input FORMS) every family (17 + 4) handed over with float32 / alternating
+                               float32-float64 / Fortran-ordered / non-contiguous / read-only cores or as a tuple through truncate
+                               (8 flag combinations x 2 settings), orthogonalize (every pivot, both flags), orthogonalize_left /
+                               _right, add / sub / mul / outer and the scalars (argument untouched); cross on the 6 degenerate
+                               oracles x 4 stop criteria with the start in these forms, nswp / m / e / dr_min / dr_max / k0 as NumPy
+                               scalars / 0-d arrays, oracle values returned as list / float32 / integer array, validation data as
+                               uint8 / int32 / F / view / tuple / float32; als on zero / constant / one-hot / zero-slice data with
+                               the start / the index array / the values (int64 array, list of ints, float32) / the weights / the
+                               numeric options in other forms, fixed-rank and adaptive
   C11.scalars.many_modes       (gap closure) scalars of degenerate tensors with MORE ENTRIES THAN int64 CAN COUNT (2^63 .. 5^130: [2]*63,
                                [2]*64, [2]*65, [4]*32, [16]*16, [3]*41, [65536]*4, d up to 130, modes of size 1 mixed in, ragged): 14
                                families (zero tensors with all / first / middle / last core zero and const(n, 0.), exact cancellation
@@ -72,7 +81,9 @@ BOUNDS = ('shapes gen.shapes(d<=4, n<=4) incl. mode size 1 and d=2; 17 families 
           'every stop criterion of cross (6 budgets m), 9 option sets of als, zero tensors x all truncate flags x 4 (e, cap); '
           'cross (dr_min, dr_max) in all 13 pairs {0<=a<=b<=3, (4,4), (2,5), (5,5)} x 8 shapes (n<=4, d<=4; thorough 14, n<=5, d<=6) x start ranks 1..3; '
           'scalars of tensors with 2^63 .. 5^130 entries: 13 shapes (thorough 18: d = 16..130, n = 2..16, 256, with modes of size 1, ragged) + '
-          '[65536]*4 (+ [2^21]*3) x 14 degenerate families x ranks 2..3 (1..3), exact rational reference')
+          '[65536]*4 (+ [2^21]*3) x 14 degenerate families x ranks 2..3 (1..3), exact rational reference; input forms: 21 families x '
+          '9 core forms (f32 / mixed / F / view / read-only / tuple) x 8 shapes (one in eight quick) through 35+ routine calls, cross '
+          '14 forms x 6 oracles x 6 shapes, als 17 forms x 4 data kinds x 6 shapes (one in four quick; 380 quick cases)')
 
 NONZERO = ('gauss', 'int', 'rank1', 'over', 'rankdef', 'const', 'cancel')
 ZERO = ('zero_all', 'zero_first', 'zero_mid', 'zero_last', 'const0', 'mul0')
@@ -820,6 +831,135 @@ def cross_dr_grid(shape, kind, r0, dr_min, dr_max, nswp, seed, with_cache):
     return PASS
 
 
+# ------------------------------------------------------------------ input FORMS of the degenerate families
+
+def _form_tt(shape, fam, r, seed, form):
+    """Member of a degenerate family in the input form `form` (gen.tt_form: f32 / mixed / F / V / ro / tuple ...)."""
+    return gen.tt_form(_tt(shape, fam, r, seed), form)[0]
+
+
+@clause('C11.forms.tt_input', funcs=('transformation.truncate', 'transformation.orthogonalize', 'transformation.orthogonalize_left',
+                                     'transformation.orthogonalize_right', 'act_two.add', 'act_two.sub', 'act_two.mul',
+                                     'act_two.outer', 'act_one.norm', 'act_one.sum', 'act_one.mean', 'act_two.mul_scalar',
+                                     'props.erank', 'svd.matrix_svd', 'svd.matrix_skeleton'))
+def forms_tt_input(shape, fam, r, seed, form):
+    """The degenerate tensor handed over with float32 / mixed float32-float64 cores, Fortran-ordered, non-contiguous or read-only
+    cores, or as a tuple of cores: truncate (orth, use_stab; eigen mode only off the exactly-zero tensors, see
+    C11.truncate.zero_tensor), orthogonalize (every pivot, both stab flags), orthogonalize_left / _right, add / sub / mul / outer
+    return well-formed finite tensors, the scalars are finite, and the argument is left untouched."""
+    Y, image = gen.tt_form(_tt(shape, fam, r, seed), form)
+    if not gen.finite(image):
+        return SKIP('the float32 rounding of this member is not finite (outside the quantifier)')
+    if fam == 'huge' and any(t in form for t in ('f32', 'mixed')):
+        # DOUBTFUL (see the report): finite float32 cores of modulus 1e20 denote a tensor with entries ~ 1e40 beyond the float32
+        # range; the library multiplies float32 cores in float32 (overflow -> norm() = 0.0, OverflowError with use_stab=True)
+        return SKIP('float32 cores whose tensor entries exceed the float32 range')
+    before = gen.snapshot(list(Y))
+    shape, d = list(shape), len(shape)
+    zero = fam == 'cancel' or _is_zero_tensor(image)       # (the float32 rounding of the family 'tiny' has exactly-zero cores)
+    outs = []
+    for (e, rcap) in ((1e-10, 1.E+12), (1e-2, 2)):
+        for orth in (True, False):
+            for stab in (False, True):
+                for eigh in ((False,) if zero else (False, True)):
+                    outs.append((f'truncate(e={e}, r={rcap}, orth={orth}, use_stab={stab}, is_eigh={eigh})',
+                                 teneva.truncate(Y, e, rcap, orth=orth, use_stab=stab, is_eigh=eigh), shape))
+    for k in list(range(d)) + [None]:
+        outs.append((f'orthogonalize(k={k})', teneva.orthogonalize(Y, k), shape))
+        Z, p = teneva.orthogonalize(Y, k, use_stab=True)
+        if not _finite_scalar(p):
+            return FAIL(f'orthogonalize(k={k}, use_stab=True): power factor {p!r}')
+        outs.append((f'orthogonalize(k={k}, use_stab=True)', Z, shape))
+    for i in range(d - 1):
+        outs.append((f'orthogonalize_left(i={i})', teneva.orthogonalize_left(Y, i), shape))
+    for i in range(1, d):
+        outs.append((f'orthogonalize_right(i={i})', teneva.orthogonalize_right(Y, i), shape))
+    Y2 = _tt(shape, 'gauss', max(1, r - 1), seed + 1)
+    outs += [('add(Y,Y2)', teneva.add(Y, Y2), shape), ('add(Y2,Y)', teneva.add(Y2, Y), shape), ('sub(Y,Y2)', teneva.sub(Y, Y2), shape),
+             ('sub(Y,Y)', teneva.sub(Y, Y), shape), ('mul(Y,Y2)', teneva.mul(Y, Y2), shape), ('mul(Y,0.)', teneva.mul(Y, 0.), shape),
+             ('add(Y,2.5)', teneva.add(Y, 2.5), shape), ('outer(Y,Y2)', teneva.outer(Y, Y2), shape + shape)]
+    for name, Z, shp in outs:
+        msg = _bad(Z, shp, f'{name} [{fam}, {form}]')
+        if msg:
+            return FAIL(msg)
+    msg = _scalars(Y, f'{fam}, {form}')
+    if msg:
+        return FAIL(msg)
+    return check(gen.snapshot(list(Y)) == before, f'the argument ({form}) was modified')
+
+
+@clause('C11.forms.cross', funcs=('cross.cross', 'cross._func_eval', 'utils._maxvol', 'maxvol.maxvol', 'maxvol.maxvol_rect'))
+def forms_cross(shape, kind, r0, dr_min, dr_max, stop, seed, with_cache, form):
+    """cross on a degenerate oracle (zero / constant / one-hot / zero-slice / +-1 / one active mode) in other input forms: form =
+    {y0: gen.tt_form spec of the start, num: 'np64' / 'np32' / '0d' for nswp, m, e, dr_min, dr_max, k0, ret: the oracle returns a
+    'list' / a 'f32' array / an 'int' array (integer-valued oracles), vform: gen.idx_form | gen.val_form spec of validation data}:
+    well-formed finite tensor of the original shape, finite info values."""
+    f0 = _oracle(shape, kind, seed) if kind not in ('zero', 'const') else (lambda I: np.full(len(I), 0. if kind == 'zero' else -2.5))
+    ret = form.get('ret')
+
+    def f(I):
+        y = np.asarray(f0(I), dtype=float)
+        if ret == 'list':
+            return y.tolist()
+        if ret == 'f32':
+            return y.astype(np.float32)
+        if ret == 'int' and np.all(y == np.rint(y)):
+            return np.rint(y).astype(np.int64)
+        return y
+
+    Y0 = gen.tt_form(gen.tt(shape, r0, seed, 'gauss'), form.get('y0') or '')[0]
+    kw = dict(dr_min=dr_min, dr_max=dr_max, k0=50)
+    kw.update({'nswp0': dict(nswp=0), 'nswp': dict(nswp=2), 'e': dict(e=1e-3, nswp=3), 'm': dict(m=3 * sum(shape) + 1)}[stop])
+    if form.get('vform'):
+        I = gen.all_indices(shape)
+        fi, _, fy = form['vform'].partition('|')
+        kw.update(I_vld=gen.idx_form(I, fi), y_vld=gen.val_form(np.asarray(f0(I), dtype=float) + 1., fy)[0], e_vld=1e-3)
+    if form.get('num'):
+        kw = gen.num_kwargs(kw, form['num'], ('nswp', 'm', 'e', 'e_vld', 'dr_min', 'dr_max', 'k0'))
+    info = {}
+    Y = teneva.cross(f, Y0, info=info, cache={} if with_cache else None, log=False, **kw)
+    msg = _bad(Y, shape, f'cross({kind}, {stop}, {form})')
+    if msg:
+        return FAIL(msg)
+    for k in ('e', 'e_vld', 'r'):
+        if not _finite_scalar(info[k]):
+            return FAIL(f'info[{k}] = {info[k]!r}')
+    return PASS
+
+
+@clause('C11.forms.als', funcs=('als.als',))
+def forms_als(shape, kind, r0, how, adaptive, seed, form):
+    """als (fixed rank, rank-adaptive with cap `adaptive`) on zero / constant / one-hot / zero-slice data with repeated samples in
+    other input forms: form = {y0: gen.tt_form spec of the start, iform: gen.idx_form spec of I, yform: gen.val_form spec of y
+    ('int' only for integer-valued data), wform: weights given in that form, num: nswp, lamb, r, e as NumPy scalars}:
+    well-formed finite tensor of the original shape, finite info values."""
+    I = _samples(shape, how, seed)
+    if kind in ('zero', 'const'):
+        y = np.full(len(I), 0. if kind == 'zero' else -2.)
+    else:
+        y = np.asarray(_oracle(shape, kind, seed)(I), dtype=float)
+    Y0 = gen.tt_form(gen.tt(shape, r0, seed, 'gauss'), form.get('y0') or '')[0]
+    kw = dict(nswp=2, lamb=0.0625, e=None)
+    if adaptive:
+        kw['r'] = adaptive
+    if form.get('wform'):
+        kw['w'] = np.asarray(gen.val_form(0.5 + gen.rng('C11.forms.w', seed).uniform(size=len(I)), form['wform'])[0])
+    spec = form.get('yform') or ''
+    if 'int' in spec and not np.all(y == np.rint(y)):
+        spec = '+'.join(t for t in spec.split('+') if t not in ('int', 'intlist'))
+    if form.get('num'):
+        kw = gen.num_kwargs(kw, form['num'], ('nswp', 'lamb', 'r'))
+    info = {}
+    Y = teneva.als(gen.idx_form(I, form.get('iform') or ''), gen.val_form(y, spec)[0], Y0, info=info, log=False, **kw)
+    msg = _bad(Y, shape, f'als({kind}, r={adaptive or None}, {form})')
+    if msg:
+        return FAIL(msg)
+    for k in ('e', 'e_vld', 'r'):
+        if not _finite_scalar(info[k]):
+            return FAIL(f'info[{k}] = {info[k]!r}')
+    return PASS
+
+
 def _samples(shape, how, seed):
     g = gen.rng('C11.samples', shape, how, seed)
     I = gen.all_indices(shape)
@@ -1223,3 +1363,45 @@ def cases(tier, seed):
         yield 'C11.truncate.wf', dict(shape=shape, fam=fam, r=int(g.integers(1, 5)), seed=s(), e=e, rcap=rc, orth=o,
                                       use_stab=st, is_eigh=eg)
         yield 'C11.orthogonalize.wf', dict(shape=shape, fam=fam, r=int(g.integers(1, 5)), seed=s())
+    # ---- input FORMS of the degenerate families (own generator): float32 / mixed float32-float64 / Fortran-ordered /
+    # non-contiguous / read-only cores, the core list as tuple; cross / als additionally with NumPy-scalar options, oracle
+    # values returned as list / float32 / integer array, index data as uint8 / int32 / F / view / tuple, integer-typed values
+    gf = gen.rng('C11.forms', seed)
+
+    def sf():
+        return int(gf.integers(1 << 30))
+
+    tforms = ['f32', 'mixed', 'mixed1+V', 'F', 'V', 'ro', 'tuple', 'F+ro+tuple', 'f32+V+ro+tuple']
+    fshapes = [[2, 2], [4, 3], [3, 1, 2], [2, 2, 2], [4, 2, 3], [1, 3, 3], [2, 3, 4, 2], [1, 1]] + ([[3] + [1] * 2 + [2], [5, 1, 5], [6, 6]] if big else [])
+    k = 0
+    for fi, fam in enumerate(FAMS + EXTRA):
+        for ti, form in enumerate(tforms):
+            for si, shape in enumerate(fshapes):
+                k += 1
+                if big or (fi + ti + si) % 8 == 0:
+                    yield 'C11.forms.tt_input', dict(shape=shape, fam=fam, r=(2, 4, 1)[k % 3], seed=sf(), form=form)
+    cforms = [{'y0': 'f32'}, {'y0': 'mixed'}, {'y0': 'V+ro+tuple'}, {'y0': 'F+ro'}, {'num': 'np64'}, {'num': 'np32'}, {'num': '0d'},
+              {'ret': 'list'}, {'ret': 'f32'}, {'ret': 'int'}, {'vform': 'u8+F|f32'}, {'vform': 'i32+V+ro|V'}, {'vform': 'tuple|list'},
+              {'y0': 'f32+tuple', 'num': 'np32', 'ret': 'int', 'vform': 'i32+F|f32'}]
+    kinds = ('zero', 'const', 'onehot', 'zero_slice', 'sign', 'axis')
+    stops = ('nswp0', 'nswp', 'e', 'm')
+    cshapes = [[2, 2], [3, 4], [3, 1, 2], [2, 3, 2], [2, 2, 2, 2], [1, 3]] + ([[4, 4, 4], [5, 1, 5]] if big else [])
+    for ci, form in enumerate(cforms):
+        for qi, kind in enumerate(kinds):
+            for si, shape in enumerate(cshapes):
+                k += 1
+                if big or (ci + qi + si) % 4 == 0:
+                    a, b = ((1, 1), (0, 0), (1, 2), (0, 2))[k % 4]
+                    yield 'C11.forms.cross', dict(shape=shape, kind=kind, r0=1 + k % 3, dr_min=a, dr_max=b, stop=stops[(k // 4) % 4],
+                                                  seed=sf(), with_cache=bool(k % 2), form=form)
+    aforms = [{'y0': 'f32'}, {'y0': 'mixed'}, {'y0': 'mixed1+V'}, {'y0': 'V+ro+tuple'}, {'y0': 'F+ro'}, {'iform': 'u8+F'},
+              {'iform': 'i32+V+ro'}, {'iform': 'tuple'}, {'yform': 'int'}, {'yform': 'intlist'}, {'yform': 'f32'}, {'yform': 'V+ro'},
+              {'wform': 'f32+V'}, {'num': 'np64'}, {'num': 'np32'}, {'num': '0d'},
+              {'y0': 'f32+tuple', 'iform': 'u8+V', 'yform': 'int+ro', 'wform': 'f32', 'num': 'np32'}]
+    for ai, form in enumerate(aforms):
+        for qi, kind in enumerate(('zero', 'const', 'onehot', 'zero_slice')):
+            for si, shape in enumerate(cshapes):
+                k += 1
+                if big or (ai + qi + si) % 4 == 0:
+                    yield 'C11.forms.als', dict(shape=shape, kind=kind, r0=1 + k % 2, how=('rep', 'full', 'sparse')[k % 3],
+                                                adaptive=(3 if (len(shape) >= 3 and k % 2) else 0), seed=sf(), form=form)
